@@ -154,7 +154,8 @@ impl JsValue {
                 if y == 0 {
                     Self::nan()
                 } else {
-                    match x % y {
+                    // `i32::MIN % -1` overflows; `wrapping_rem` gives the exact remainder 0 (-0 below).
+                    match x.wrapping_rem(y) {
                         rem if rem == 0 && x < 0 => Self::new(-0.0),
                         rem => Self::new(rem),
                     }
@@ -754,7 +755,8 @@ impl JsValue {
             if y == 0 {
                 return Some(Self::nan());
             }
-            return Some(match x % y {
+            // `i32::MIN % -1` overflows; `wrapping_rem` gives the exact remainder 0 (-0 below).
+            return Some(match x.wrapping_rem(y) {
                 rem if rem == 0 && x < 0 => Self::new(-0.0),
                 rem => Self::new(rem),
             });
